@@ -115,6 +115,13 @@ def judge(run, nodes, detail, tz):
             if src == "node" and (name not in spec_params or jsonable(spec_params[name]) != params.get(name)) and jsonable(spec_params.get(name)) is not None:
                 yield ("extra-param-untrue:node", f"SER lists '{name}' from the node configuration, which does not have that value",
                        dict(where, name=name, recorded=params.get(name), config=spec_params))
+            if src == "default":
+                # a default the SER reports must be the one the class that ran declares (also when the node never fetched it,
+                # e.g. a slicer over an empty collection)
+                dflt = declared_default(e, name)
+                if dflt is not _NO_DEFAULT and jsonable(dflt) is not None and params.get(name) != jsonable(dflt):
+                    yield ("extra-param-untrue:default", f"SER lists '{name}' from the defaults with a value that is not the declared default",
+                           dict(where, name=name, recorded=params.get(name), declared_default=jsonable(dflt)))
             if src == "context" and (name not in pre or jsonable(pre[name]) != params.get(name)):
                 yield ("extra-param-untrue:context", f"SER lists '{name}' from the context, which does not have that value",
                        dict(where, name=name, recorded=params.get(name), pre_context=jsonable(pre)))
@@ -230,6 +237,21 @@ def has_default(entry, name) -> bool:
     except Exception:
         return False
     return p is not None and p.default is not inspect.Parameter.empty
+
+
+_NO_DEFAULT = object()
+
+
+def declared_default(entry, name):
+    import inspect
+    fn = getattr(entry["cls"], "_process_logic", None)
+    try:
+        p = inspect.signature(fn).parameters.get(name)
+    except Exception:
+        return _NO_DEFAULT
+    if p is None or p.default is inspect.Parameter.empty:
+        return _NO_DEFAULT
+    return p.default
 
 
 def unresolved_name(entry):
@@ -391,6 +413,15 @@ def gen_case(rnd, i):
         # a node that writes a declared key and then raises: its error SER describes the context as the node left it
         nodes = [{"processor": "TSourceDef"}] + ([{"processor": "TProbe", "context_key": rnd.choice(["w", "c"])}] if rnd.random() < 0.5 else []) + \
                 [{"processor": "TWriteThenFail"}, {"processor": "TOp0"}]
+        ctx0 = {"other": "kept"}
+    if i % 16 == 9:
+        # generated classes share one qualified name (every slicer is `...create.<locals>.SlicingDataOperator`): several of them in one
+        # run, with different parameter tables (a defaulted here, required there, b only in one) — each SER must report its own node's
+        ops = [{"processor": "slice:TOp2:TColl", "parameters": {"a": rnd.choice(["cfg-a", 2])}}, {"processor": "slice:TOp1Def:TColl"},
+               {"processor": "slice:TOp1:TColl", "parameters": {"a": "cfg-a1"}}, {"processor": "slice:TOp0:TColl"},
+               {"processor": "slice:TOp1Def:TColl", "parameters": {"a": "given"}}]
+        rnd.shuffle(ops)
+        nodes = [{"processor": "TCollSource", "parameters": {"v": "s"}}] + ops[:rnd.choice([2, 3, 4])]
         ctx0 = {"other": "kept"}
     if i % 16 == 11:
         # the context also holds a value that cannot be copied or serialised (a lock, a generator, a module): no node touches it,
